@@ -132,6 +132,7 @@ var c15Pre = []struct{ src, out string }{
 	{"{msg desc=\"d\"}", "{/msg}"}, // (index 7: the run is the text of a message; src closes it)
 	{"", ""},                       // (index 8: the run follows a header param declaration)
 	{"{msg desc=\"d\"}", "{/msg}"}, // (index 9: message text with capital letters)
+	{"", ""},                       // (index 10: the run starts with text and a closed block comment)
 }
 
 // H_textlex: a template body of n characters over {a < > space LF CR / * :} (concrete per path)
@@ -168,6 +169,13 @@ func H_textlex(n, ctx int) {
 			// the run directly after a header param declaration (no soydoc)
 			src = "{namespace n}\n{template .t autoescape=\"false\"}\n{@param x: ?}" + body + "{$x}\n{/template}\n"
 			preOut = ""
+		}
+		if ctx == 13 {
+			// the symbolic characters directly follow a closed block comment ("*/" is not white
+			// space: a "//" behind it is text)
+			run = "a/* c */" + body
+			src = "{namespace n}\n/** @param x */\n{template .t autoescape=\"false\"}\n{$x}" + run + "{$x}\n{/template}\n"
+			preOut = "|"
 		}
 		if ctx == 12 {
 			// message text with capital letters (tag names in any case are written back as they are)
